@@ -206,6 +206,13 @@ def hash_event(r, oid):
                     return None
                 e = es[r.rng.randrange(len(es))]
                 args = (e,) if r.b.kind in ("hg", "dir") else (e[1], e[0])
+                if r.rng.random() < 0.4:
+                    # ... or two whole numbers (same type: int) beyond 2**53, where floats can no longer tell neighbours apart
+                    w = 2 ** 53 + 2 * r.rng.randrange(0, 2 ** 20)
+                    h.set_weight(*args, w)
+                    a = hash_hypergraph(h)
+                    h.set_weight(*args, w + 1)
+                    return a, hash_hypergraph(h)
                 w = float(h.get_weight(*args))
                 h.set_weight(*args, w)
                 a = hash_hypergraph(h)
